@@ -61,8 +61,8 @@ Theorem C05_push_oci_complete :
 Proof. exact oci_push_complete. Qed.
 Print Assumptions C05_push_oci_complete.
 
-(* the same for a named push to the file store under a fresh name (the fallback path
-   = LimitedStorage over the memory store has no completeness theorem: correspondence only) *)
+(* the same for the file store: a named push under a fresh name, and an unnamed push
+   into the fallback (LimitedStorage over the memory store) *)
 Theorem C05_push_file_complete :
   forall (H : str -> str -> str) comb fuel s name path d evs,
     name <> [] -> name_in name (f_names s) = false ->
@@ -74,6 +74,26 @@ Theorem C05_push_file_complete :
                   (assoc_set (f_d2p s) (d_dg d) path) (f_fb s)).
 Proof. exact file_push_complete. Qed.
 Print Assumptions C05_push_file_complete.
+
+Theorem C05_push_limited_complete :
+  forall (H : str -> str -> str) comb fixed fuel limit m d evs,
+    (d_sz d <= limit)%Z -> mem_get m d = None -> nfail evs = 0%nat -> valid_digest (d_dg d) = true ->
+    d_dg d = digest_of H (alg_of (d_dg d)) (stream evs) -> d_sz d = Z.of_nat (length (stream evs)) ->
+    (ev_weight evs < fuel)%nat ->
+    limited_push (mem_push H comb fixed fuel) limit m d evs = (None, (d, stream evs) :: m).
+Proof. exact limited_mem_push_complete. Qed.
+Print Assumptions C05_push_limited_complete.
+
+Theorem C05_push_file_fallback_complete :
+  forall (H : str -> str -> str) comb fuel s path d evs,
+    (d_sz d <= defaultFallbackPushSizeLimit)%Z -> mem_get (f_fb s) d = None ->
+    nfail evs = 0%nat -> valid_digest (d_dg d) = true ->
+    d_dg d = digest_of H (alg_of (d_dg d)) (stream evs) -> d_sz d = Z.of_nat (length (stream evs)) ->
+    (ev_weight evs < fuel)%nat ->
+    file_push H comb true fuel s [] path d evs
+    = (None, mkFs (f_files s) (f_names s) (f_d2p s) ((d, stream evs) :: f_fb s)).
+Proof. exact file_push_fallback_complete. Qed.
+Print Assumptions C05_push_file_fallback_complete.
 
 (* FetchAll = Fetch then ReadAll: whatever bytes a store's Fetch serves (even a blob
    corrupted on disk), FetchAll returns them only if they match the descriptor *)
